@@ -50,7 +50,7 @@ def make_params(I, assemblage=("olivine",), fractions=None):
 
 
 def run_update(ctx, phase="olivine", fabric="olivine_A", regime="matrix_dislocation", N=2, nsteps=2, fail_at=None,
-               assemblage=("olivine",), stub_derivatives=True, get_regime=None, kwargs=None, phase_fractions=None, nsnap=2):
+               assemblage=("olivine",), stub_derivatives=True, get_regime=None, kwargs=None, phase_fractions=None, nsnap=2, param_overrides=None):
     """Interpret one Mineral.update_orientations call. Returns a Run with everything recorded."""
     R = Run()
     R.N = N
@@ -117,6 +117,8 @@ def run_update(ctx, phase="olivine", fabric="olivine_A", regime="matrix_dislocat
     R.f0_saved = R.f0.copy()
     R.hist_ids = {id(m.attrs["orientations"]): "orientations", id(m.attrs["fractions"]): "fractions"}
     R.params = make_params(I, assemblage, phase_fractions)
+    for k_, v_ in (param_overrides or {}).items():
+        R.params[k_] = v_
     R.F0 = symarr("F0", (3, 3))
     R.t0, R.t1 = alg.sym("tstart"), alg.sym("tend")
 
